@@ -32,7 +32,7 @@ impl Server {
             eprintln!("unable to read TCP stream {}", &message);
 
             let raw_response = Server::bad_request_response(message);
-            let boxed_stream = stream.write(raw_response.borrow());
+            let boxed_stream = stream.write_all(raw_response.borrow());
             if boxed_stream.is_ok() {
                 stream.flush().unwrap();
             };
@@ -52,7 +52,7 @@ impl Server {
             eprintln!("unable to parse request: {}", &message);
 
             let raw_response = Server::bad_request_response(message);
-            let boxed_stream = stream.write(raw_response.borrow());
+            let boxed_stream = stream.write_all(raw_response.borrow());
             if boxed_stream.is_ok() {
                 stream.flush().unwrap();
             };
@@ -68,7 +68,7 @@ impl Server {
         println!("{}", log_request_response);
         let raw_response = Response::generate_response(response, request);
 
-        let boxed_stream = stream.write(raw_response.borrow());
+        let boxed_stream = stream.write_all(raw_response.borrow());
         if boxed_stream.is_ok() {
             stream.flush().unwrap();
         };
@@ -120,7 +120,7 @@ impl Server {
         if boxed_read.is_err() {
             let read_message = boxed_read.err().unwrap().to_string();
             let raw_response = Server::bad_request_response(read_message.clone());
-            let boxed_stream = stream.write(raw_response.borrow());
+            let boxed_stream = stream.write_all(raw_response.borrow());
             if boxed_stream.is_ok() {
                 stream.flush().unwrap();
             } else {
@@ -144,7 +144,7 @@ impl Server {
             let message = boxed_request.err().unwrap();
 
             let raw_response = Server::bad_request_response(message.clone());
-            let boxed_stream = stream.write(raw_response.borrow());
+            let boxed_stream = stream.write_all(raw_response.borrow());
             if boxed_stream.is_ok() {
                 stream.flush().unwrap();
             } else {
@@ -163,7 +163,7 @@ impl Server {
             let message = app_processing.as_ref().err().unwrap().to_string();
             let response = Server::bad_request_response_to(message, request.clone());
 
-            let boxed_stream = stream.write(response.borrow());
+            let boxed_stream = stream.write_all(response.borrow());
             if boxed_stream.is_ok() {
                 stream.flush().unwrap();
             } else {
@@ -182,7 +182,7 @@ impl Server {
 
         let raw_response = Response::generate_response(response, request);
 
-        let boxed_stream = stream.write(raw_response.borrow());
+        let boxed_stream = stream.write_all(raw_response.borrow());
         if boxed_stream.is_ok() {
             stream.flush().unwrap();
         } else {
